@@ -105,6 +105,15 @@ pub fn open(fmt: &str, bytes: Vec<u8>) -> Result<Wb, String> {
         "xlsx" => Xlsx::new(cur).map(Wb::Xlsx).map_err(|e| xlsx_err(&e).to_string()),
         "xlsb" => Xlsb::new(cur).map(Wb::Xlsb).map_err(|e| xlsb_err(&e).to_string()),
         "xls" => Xls::new(cur).map(Wb::Xls).map_err(|e| xls_err(&e).to_string()),
+        // "xls@<n>": the header-row option given at open time (XlsOptions) instead of afterwards
+        f if f.starts_with("xls@") => {
+            let mut o = calamine::XlsOptions::default();
+            o.header_row = match f[4..].parse::<u32>() {
+                Ok(n) => HeaderRow::Row(n),
+                Err(_) => HeaderRow::FirstNonEmptyRow,
+            };
+            Xls::new_with_options(cur, o).map(Wb::Xls).map_err(|e| xls_err(&e).to_string())
+        }
         "ods" => Ods::new(cur).map(Wb::Ods).map_err(|e| ods_err(&e).to_string()),
         "auto" => open_workbook_auto_from_rs(cur)
             .map(Wb::Auto)
